@@ -258,7 +258,10 @@ static int rr_nullable_star(const struct rr_ast *a, int nd)
 	const struct rr_node *n = &a->n[nd];
 	if (n->kind == RK_ATOM)
 		return 0;
-	if (n->kind == RK_REP && n->max < 0 && rr_nullable(a, n->l))
+	/* a repeated group that matched the empty string is not repeated again (regex.c re_rec(), for the
+	 * groups whose marks are recorded); other nullable repetitions run into the recursion limit */
+	if (n->kind == RK_REP && n->max < 0 && rr_nullable(a, n->l) &&
+			!(a->n[n->l].kind == RK_GRP && a->n[n->l].grp < 32))
 		return 1;
 	if (n->kind == RK_GRP)
 		return n->l >= 0 && rr_nullable_star(a, n->l);
@@ -271,6 +274,7 @@ static int rr_nullable_star(const struct rr_ast *a, int nd)
 struct rr_k {			/* continuation frame */
 	int type;		/* 0: match node; 1: end of group; 2: repetition bookkeeping; 3: accept */
 	int node, cnt;
+	int pos;		/* type 2: where the iteration that has just ended began */
 	const struct rr_k *next;
 };
 
@@ -311,12 +315,16 @@ static int rr_cont(struct rr_run *R, const struct rr_k *k, int p)
 		n = &R->a->n[k->node];
 		need = n->min > 1 ? n->min : 1;
 		f = *k;
+		f.pos = p;
 		if (k->cnt < need) {			/* mandatory copies */
 			f.cnt = k->cnt + 1;
 			return rr_m(R, n->l, p, &f);
 		}
 		memcpy(sav, R->grp, sizeof(sav));
 		if (n->max < 0) {			/* loop on the last copy, greedy */
+			/* an empty iteration of a group ends the loop */
+			if (p == k->pos && R->a->n[n->l].kind == RK_GRP && R->a->n[n->l].grp < 32)
+				return rr_cont(R, k->next, p);
 			if (rr_m(R, n->l, p, &f))
 				return 1;
 			memcpy(R->grp, sav, sizeof(sav));
@@ -364,7 +372,7 @@ static int rr_m(struct rr_run *R, int nd, int p, const struct rr_k *k)
 	case RK_REP:
 		if (n->min == 0 && n->max == 0)
 			return rr_cont(R, k, p);
-		f.type = 2; f.node = nd; f.cnt = 1; f.next = k;
+		f.type = 2; f.node = nd; f.cnt = 1; f.next = k; f.pos = p;
 		if (n->min == 0) {
 			memcpy(sav, R->grp, sizeof(sav));
 			if (rr_m(R, n->l, p, &f))
@@ -391,7 +399,7 @@ static int rr_first(const struct rr_ast *a, const struct rr_subj *sj, int *grps,
 static int rr_first_from(const struct rr_ast *a, const struct rr_subj *sj, int p0, int *grps, int ngrps)
 {
 	struct rr_run R;
-	struct rr_k acc = {3, 0, 0, NULL};
+	struct rr_k acc = {3, 0, 0, 0, NULL};
 	int s, i;
 	R.a = a;
 	R.sj = sj;
